@@ -4,6 +4,7 @@
   regenerated) with the data directory's content not an input.
 -/
 import NutsModel.C20.FlagsSql
+import NutsModel.C20.Dummy
 import NutsModel.Facts.C20
 import NutsProofs.Lemmas.C20
 import NutsProofs.Props.C20
@@ -274,5 +275,30 @@ example : startConn adapters tlds l2s secureCfg [] [1, 2, 3] = .refuse "storage"
     startConn adapters tlds l2s sloppyCfg [98, 111, 103, 117, 115, 58, 120] [] = .refuse "storage" "sql-unsupported" ∧
     initSQL adapters [115, 113, 108, 105, 116, 101, 58, 120] true [] = .ok [115, 113, 108, 105, 116, 101] := by
   refine ⟨?_, ?_, ?_⟩ <;> decide
+
+/-! ### the dummy (test-only) means behind its registration check -/
+/-- the guards as the source has them: each of the three entry points tests `d.InStrictMode` first -/
+def dummyGuards : DummyGuards :=
+  { verify := Facts.C20.strictCondsDummy.contains "VerifyVP: d.InStrictMode",
+    status := Facts.C20.strictCondsDummy.contains "SigningSessionStatus: d.InStrictMode",
+    start := Facts.C20.strictCondsDummy.contains "StartSigningSession: d.InStrictMode" }
+
+theorem fact_dummy_guards : dummyGuards = { verify := true, status := true, start := true } := by decide
+
+/-- **dummy_strict_inert.** A dummy means in strict mode — however it got registered — refuses EVERY call of EVERY
+    history and its session state never changes (defence in depth behind `strict_running`) -/
+theorem dummy_strict_inert (d : DummyMeans) (hs : d.strict = true) :
+    ∀ acts : List DummyAct, dummyRun dummyGuards d acts = (d, acts.map fun _ => "not-enabled")
+  | [] => rfl
+  | a :: r => by
+    have hstep : dummyStep dummyGuards d a = (d, "not-enabled") := by
+      rw [fact_dummy_guards]; cases a <;> simp [dummyStep, hs]
+    simp only [dummyRun, hstep, dummy_strict_inert d hs r, List.map_cons]
+
+/-- lenient: the means works (session life cycle); were one guard missing, the strict means would act -/
+example : (dummyRun dummyGuards { strict := false } [.start, .status 0, .status 0, .status 0, .status 0, .verify]).2
+      = ["started", "created", "in-progress", "completed", "not-found", "verifier-reached"] ∧
+    (dummyRun { dummyGuards with start := false } { strict := true } [.start]).2 = ["started"] := by
+  refine ⟨?_, ?_⟩ <;> decide
 
 end Nuts.C20.Props
